@@ -126,6 +126,27 @@ Theorem C05_exclusion_files_all_loaded :
 Proof. exact exclusion_files_all_loaded_lemma. Qed.
 Print Assumptions C05_exclusion_files_all_loaded.
 
+(* What is a line of an exclusion file (bufio.ScanLines, transcribed as [read_lines]): the last
+   line counts whether the file ends without a newline, in LF or in CRLF. *)
+Theorem C05_exclusion_file_last_line : forall head last : bytes,
+  whole_lines head -> no_lf last -> last <> [] ->
+  read_lines (head ++ last) = read_lines head ++ [drop_last_cr last]
+  /\ read_lines (head ++ last ++ [LF]) = read_lines head ++ [drop_last_cr last]
+  /\ read_lines (head ++ last ++ [CR; LF]) = read_lines head ++ [drop_last_cr (last ++ [CR])].
+Proof. exact exclusion_file_last_line_lemma. Qed.
+Print Assumptions C05_exclusion_file_last_line.
+
+(* ... and is in force, for every regexp oracle, in whichever of the files it stands *)
+Theorem C05_exclusion_file_last_line_in_force :
+  forall (matches : bytes -> bytes -> bool) (before after : list bytes) (head re eol : bytes) (c : opcfg) host text,
+    whole_lines head -> no_lf re -> re <> [] -> drop_last_cr re = re ->
+    eol = [] \/ eol = [LF] \/ eol = [CR; LF] ->
+    matches re text = true ->
+    in_scope c host text
+      (map (fun r => matches r text) (gen_regexes_raw (before ++ [head ++ re ++ eol] ++ after))) = false.
+Proof. exact exclusion_file_last_line_in_force_lemma. Qed.
+Print Assumptions C05_exclusion_file_last_line_in_force.
+
 (* GenerateCrawlConfig leaves the operator's entries exactly as typed (no case folding, nothing
    dropped, nothing added but the two default hosts): the scope is judged against what the
    operator wrote. *)
